@@ -15,7 +15,9 @@ import (
 	"path/filepath"
 	"runtime"
 	"sync"
+	"sync/atomic"
 	"testing"
+	"time"
 
 	"verif/harness/wire"
 
@@ -146,6 +148,9 @@ func TestRaceUfsClient(t *testing.T) {
 		ufs.Dotu = true
 		ufs.Root = root
 		ufs.Id = "race"
+		if rep.Cases%2 == 1 {
+			ufs.Msize = 4096 // the server grants less than the client proposes
+		}
 		ufs.Start(ufs)
 		a, b := net.Pipe()
 		ufs.NewConn(a)
@@ -224,11 +229,13 @@ func TestRaceUfsClient(t *testing.T) {
 		}
 		for x := 0; x < naux; x++ { // connections opened and dropped (quiescent) while the others are busy
 			wg.Add(1)
+			// each of them attaches as a user the server's (process-wide, default) user table has not seen yet
+			nu := &newUser{id: 20000 + rep.Cases*16 + x}
 			go func() {
 				defer wg.Done()
 				a2, b2 := net.Pipe()
 				ufs.NewConn(a2)
-				c2, err := go9p.MountConn(b2, "", 4096, user)
+				c2, err := go9p.MountConn(b2, "", 4096, nu)
 				if err == nil {
 					_, _ = c2.FStat("g1/f")
 					c2.Unmount()
@@ -248,6 +255,14 @@ func TestRaceUfsClient(t *testing.T) {
 	rep.Stats["ops"] = ops
 	rep.write()
 }
+
+// newUser: a user known to the client only by number.
+type newUser struct{ id int }
+
+func (u *newUser) Name() string               { return fmt.Sprintf("u%d", u.id) }
+func (u *newUser) Id() int                    { return u.id }
+func (u *newUser) Groups() []go9p.Group       { return nil }
+func (u *newUser) IsMember(g go9p.Group) bool { return false }
 
 // rawClient speaks raw 9P over one shared connection for many goroutines (its own mutexes are harness
 // code; only the server runs library code).
@@ -329,6 +344,8 @@ func (rops) ConnClosed(*go9p.Conn)   {}
 
 // TestRaceRaw: G goroutines pipeline raw requests with interleaved flushes over ONE connection to the
 // framework with a trivial implementation; a Tversion first; auxiliary connections come and go.
+var lost atomic.Int64 // requests of the raw engine that were never answered
+
 func TestRaceRaw(t *testing.T) {
 	sks := readSkeletons(t)
 	yieldMask = envSeed() * 40503
@@ -385,7 +402,14 @@ func TestRaceRaw(t *testing.T) {
 					ch := rc.send(m)
 					if flush {
 						fch := rc.send(&wire.Msg{Type: wire.Tflush, Tag: m.Tag + 1, Oldtag: m.Tag})
-						<-fch
+						select {
+						case <-fch:
+						case <-time.After(20 * time.Second):
+							// not this property's business (C07), but the engine must end so that the race
+							// reports of this run are read
+							lost.Add(1)
+							return
+						}
 						rc.mu.Lock()
 						delete(rc.wait, m.Tag) // flushed: a reply, if any, has arrived before the Rflush
 						rc.mu.Unlock()
@@ -394,7 +418,12 @@ func TestRaceRaw(t *testing.T) {
 						default:
 						}
 					} else {
-						<-ch
+						select {
+						case <-ch:
+						case <-time.After(20 * time.Second):
+							lost.Add(1)
+							return
+						}
 					}
 				}
 			}(g, opsOf)
@@ -417,6 +446,7 @@ func TestRaceRaw(t *testing.T) {
 		}
 	}
 	rep.Distinct = rep.Cases
+	rep.Stats["requests_never_answered"] = lost.Load()
 	rep.Stats["ops"] = ops
 	rep.write()
 }
